@@ -42,6 +42,7 @@ type Event struct {
 	Aux    string
 	Peer   *Event // wake <-> enq, unlock <-> lock …
 	Held   []string
+	DepReads []*Event // write events: the read events of the same path whose value the written value depends on
 	HasRef bool // reference-valued read whose value was fixed to the candidate RefID on this path
 	RefID  int
 	Plain  bool // plain (non-atomic, non-sync) memory access: subject to the race analysis
@@ -57,6 +58,7 @@ type recAssert struct {
 }
 
 type ThreadPath struct {
+	readVar  map[int]*Event // read variable (term id) -> the read event that introduced it
 	Thread   int
 	Events   []*Event
 	PC       []*Term
@@ -113,6 +115,7 @@ type ConcState struct {
 	incomplete   bool
 	readCache    map[string]Value
 	refMu        sync.Mutex
+	pcMark       pcMarkT // path-condition mark at the start of the thread being explored
 }
 
 type heapSnap struct {
@@ -343,6 +346,7 @@ func (ex *Exec) exploreThread(t int) {
 	var seenSig map[string]bool
 	savedCtl := ex.ctl
 	savedPC := ex.sess.pcMark()
+	c.pcMark = savedPC
 	defer func() { ex.ctl = savedCtl }()
 	for len(pending) > 0 {
 		prefix := pending[len(pending)-1]
@@ -534,7 +538,11 @@ func (ex *Exec) sharedLoad(p *Ptr, cur Value, atomic bool) Value {
 	ex.noteInit(p, loc)
 	if t, ok := cur.(*Term); ok {
 		rv := ex.ts.FreshVar(fmt.Sprintf("rd.t%d.%s", c.curThread, sanitize(loc)), t.Sort)
-		ex.addEvent(&Event{Kind: "r", Loc: loc, RV: rv, Atomic: atomic, Plain: !atomic})
+		rdE := ex.addEvent(&Event{Kind: "r", Loc: loc, RV: rv, Atomic: atomic, Plain: !atomic})
+		if c.cur.readVar == nil {
+			c.cur.readVar = map[int]*Event{}
+		}
+		c.cur.readVar[rv.ID] = rdE
 		if len(c.heldLocks) > 0 && !atomic {
 			c.readCache[loc] = rv
 		}
@@ -830,7 +838,28 @@ func (ex *Exec) sharedStore(p *Ptr, v Value, atomic bool) {
 		}
 	}
 	if t, ok := v.(*Term); ok {
-		ex.addEvent(&Event{Kind: "w", Loc: loc, WV: t, Atomic: atomic, Plain: !atomic})
+		we := ex.addEvent(&Event{Kind: "w", Loc: loc, WV: t, Atomic: atomic, Plain: !atomic})
+		if len(c.cur.readVar) > 0 && ex.h.Opts["atomic"] != "" && c.mode == "thread" {
+			// data dependencies (variables of the written term) and control dependencies (variables
+			// of the branch conditions taken so far on this path)
+			dep := map[*Event]bool{}
+			for id := range VarIDs(t) {
+				if re, ok := c.cur.readVar[id]; ok {
+					dep[re] = true
+				}
+			}
+			for _, pc := range ex.sess.pcSince(c.pcMark) {
+				for id := range VarIDs(pc) {
+					if re, ok := c.cur.readVar[id]; ok {
+						dep[re] = true
+					}
+				}
+			}
+			for re := range dep {
+				we.DepReads = append(we.DepReads, re)
+			}
+			sort.Slice(we.DepReads, func(i, j int) bool { return we.DepReads[i].Idx < we.DepReads[j].Idx })
+		}
 		return
 	}
 	// reference value: publish what it points to, then write its id
@@ -2712,6 +2741,12 @@ func (ex *Exec) raceBySites(final *ThreadPath, finalPC []*Term) {
 	for _, l := range final.Reach {
 		res.Reaches[l]++
 	}
+	if ex.h.Opts["atomic"] != "" {
+		ex.lostUpdateQueries(final)
+		if ex.h.Opts["atomic"] == "only" {
+			return
+		}
+	}
 	for t1 := 1; t1 <= nThreads; t1++ {
 		for t2 := t1 + 1; t2 <= nThreads; t2++ {
 			if c.threads[t1].Parent != 0 || c.threads[t2].Parent != 0 {
@@ -2878,3 +2913,199 @@ func (ex *Exec) envUnchosen(partial map[int]bool) bool {
 // maxFixPasses bounds the passes of the shared-location fix point (writers and reference candidates
 // per location); not converging within the bound is reported as unsupported (INCONCLUSIVE).
 const maxFixPasses = 12
+
+// lostUpdateQueries: predictive atomicity analysis (harness option atomic=1|only, used together with
+// race=1).  A write w of thread t to location X whose value depends on a read r of the SAME location
+// made earlier by t outside w's critical section (the lock was released in between, or there is
+// none) is a read-modify-write that is not atomic; it loses an update iff some other thread can write
+// X between r and w.  One solver query per (r, w, w') site triple asks for a schedule consistent with
+// program order and lock exclusion with clk(r) < clk(w') < clk(w); sat = a concrete interleaving in
+// which w publishes a value computed from stale state.  Obligation id: updates-are-atomic.
+func (ex *Exec) lostUpdateQueries(final *ThreadPath) {
+	c := ex.conc
+	res := ex.sess.res
+	nThreads := len(c.threads) - 1
+	st := ex.sess.stat("updates-are-atomic", "atomicity")
+	sameSection := func(p *ThreadPath, r, w *Event) bool {
+		for _, h := range r.Held {
+			held := false
+			for _, h2 := range w.Held {
+				if h2 == h {
+					held = true
+				}
+			}
+			if !held {
+				continue
+			}
+			lockLoc := strings.TrimPrefix(h, "r:")
+			released := false
+			for i := r.Idx + 1; i < w.Idx && i < len(p.Events); i++ {
+				e := p.Events[i]
+				if (e.Kind == "unlock" || e.Kind == "runlock") && e.Loc == lockLoc {
+					released = true
+				}
+			}
+			if !released {
+				return true
+			}
+		}
+		return false
+	}
+	seen := map[string]bool{}
+	for t := 1; t <= nThreads; t++ {
+		if c.threads[t].Parent != 0 {
+			continue
+		}
+		for _, p := range c.threads[t].Paths {
+			for _, w := range p.Events {
+				if verboseLog && w.Kind == "w" {
+					var ds []string
+					for _, r := range w.DepReads {
+						ds = append(ds, fmt.Sprintf("%s@%s", r.Loc, r.Pos))
+					}
+					logf("    atomicity: thread %d write %s @%s held=%v deps=%v\n", t, w.Loc, w.Pos, w.Held, ds)
+				}
+				if w.Kind != "w" || len(w.DepReads) == 0 {
+					continue
+				}
+				for _, r := range w.DepReads {
+					if r.Loc != w.Loc || r.Idx >= w.Idx || sameSection(p, r, w) {
+						continue
+					}
+					for u := 1; u <= nThreads; u++ {
+						if u == t || c.threads[u].Parent != 0 {
+							continue
+						}
+						for _, q := range c.threads[u].Paths {
+							for _, w2 := range q.Events {
+								if (w2.Kind != "w" && w2.Kind != "rmw") || w2.Loc != w.Loc {
+									continue
+								}
+								key := fmt.Sprintf("%d|%s|%s|%s|%d|%s", t, siteOf(r.Pos)+r.Pos, w.Pos, w.Loc, u, w2.Pos)
+								if seen[key] {
+									continue
+								}
+								seen[key] = true
+								st.Reached++
+								st.Posed++
+								st.Nontrivial++
+								st.Pos[siteOf(r.Pos)+" / "+siteOf(w.Pos)] = true
+								combo := make([]*ThreadPath, nThreads)
+								for x := 1; x <= nThreads; x++ {
+									if c.threads[x].Parent == 0 && len(c.threads[x].Paths) > 0 {
+										combo[x-1] = c.threads[x].Paths[0]
+									}
+								}
+								combo[t-1], combo[u-1] = p, q
+								res.ConcCombos++
+								ex.lostUpdateCombo(combo, r, w, w2, st)
+							}
+						}
+					}
+				}
+			}
+		}
+	}
+	if st.Posed == 0 {
+		// nothing to discharge: every read-modify-write of the explored paths is inside one critical section
+		st.Reached++
+		st.Posed++
+		st.Discharged++
+		st.Trivial++
+	}
+}
+
+// lostUpdateCombo poses the "w2 between r and w" query on one combination of paths.
+func (ex *Exec) lostUpdateCombo(combo []*ThreadPath, r, w, w2 *Event, st *OblStat) {
+	c := ex.conc
+	res := ex.sess.res
+	var events []*Event
+	for _, p := range combo {
+		if p != nil {
+			events = append(events, p.Events...)
+		}
+	}
+	var sb strings.Builder
+	for _, e := range events {
+		fmt.Fprintf(&sb, "(declare-const %s Int)\n", ex.clk(e))
+	}
+	lt := func(x, y *Event) string { return "(< " + ex.clk(x) + " " + ex.clk(y) + ")" }
+	names := make([]string, len(events))
+	for i, e := range events {
+		names[i] = ex.clk(e)
+		fmt.Fprintf(&sb, "(assert (and (<= 1 %s) (<= %s %d)))\n", ex.clk(e), ex.clk(e), len(events))
+	}
+	if len(events) > 1 {
+		fmt.Fprintf(&sb, "(assert (distinct %s))\n", strings.Join(names, " "))
+	}
+	var secs []*lockSection
+	for ti, p := range combo {
+		if p == nil {
+			continue
+		}
+		for i := 1; i < len(p.Events); i++ {
+			fmt.Fprintf(&sb, "(assert %s)\n", lt(p.Events[i-1], p.Events[i]))
+		}
+		open := map[string][]*lockSection{}
+		for _, e := range p.Events {
+			switch e.Kind {
+			case "lock", "rlock":
+				s := &lockSection{thread: ti, lock: e, read: e.Kind == "rlock"}
+				open[e.Loc] = append(open[e.Loc], s)
+				secs = append(secs, s)
+			case "unlock", "runlock":
+				if l := open[e.Loc]; len(l) > 0 {
+					l[len(l)-1].unl = e
+					open[e.Loc] = l[:len(l)-1]
+				}
+			}
+		}
+	}
+	for i := 0; i < len(secs); i++ {
+		for j := i + 1; j < len(secs); j++ {
+			x, y := secs[i], secs[j]
+			if x.lock.Loc != y.lock.Loc || x.thread == y.thread || (x.read && y.read) {
+				continue
+			}
+			var alts []string
+			if x.unl != nil {
+				alts = append(alts, lt(x.unl, y.lock))
+			}
+			if y.unl != nil {
+				alts = append(alts, lt(y.unl, x.lock))
+			}
+			if len(alts) == 0 {
+				sb.WriteString("(assert false)\n")
+			} else {
+				fmt.Fprintf(&sb, "(assert (or %s))\n", strings.Join(alts, " "))
+			}
+		}
+	}
+	fmt.Fprintf(&sb, "(assert (and %s %s))\n", lt(r, w2), lt(w2, w))
+	solver := ex.sess.solver
+	solver.Send("(reset)\n" + sb.String())
+	t0 := time.Now()
+	ans := solver.CheckSat(ex.sess.oblTO)
+	res.Queries++
+	res.SolverTime += time.Since(t0)
+	st.SolverMs += float64(time.Since(t0)) / 1e6
+	if ans == "unsat" {
+		st.Discharged++
+		return
+	}
+	if ans != "sat" {
+		res.Inconclusive = append(res.Inconclusive, fmt.Sprintf("%s: atomicity query: solver answered %s", ex.h.Name, firstLine(ans)))
+		return
+	}
+	ra := recAssert{ID: "updates-are-atomic", Kind: "atomicity", Pos: r.Pos + " / " + w.Pos}
+	ra.Msg = fmt.Sprintf("lost update on %s: %s reads it at %s [%s] and writes a value computed from that read at %s [%s]; %s writes it in between at %s [%s]",
+		w.Loc, c.threads[r.Thread].Name, r.Pos, strings.Join(r.Held, ","), w.Pos, strings.Join(w.Held, ","), c.threads[w2.Thread].Name, w2.Pos, strings.Join(w2.Held, ","))
+	rr := NewRenderer(ex.h.Mode)
+	cand := ex.concCandidate(solver, rr, ra, events, combo)
+	cand.Classes = map[string]bool{"stale_read_site:" + siteOf(r.Pos) + "|" + siteOf(w.Pos): true}
+	if st.Sample == "" {
+		st.Sample = ra.Msg
+	}
+	cand.Known = matchKnown(ex.sess.known, cand)
+	res.Candidates = append(res.Candidates, cand)
+}
